@@ -16,6 +16,19 @@ static int cb(gd_parser_data_t *p, void *extra)
 }
 
 static int bad = 0;
+/* FNV-1a over the bytes a call returned, so that two runs with differently filled heaps can be
+ * compared: a difference means the result depends on uninitialised memory */
+static unsigned long long sum(const void *p, size_t n)
+{
+  const unsigned char *b = p; unsigned long long h = 1469598103934665603ULL; size_t i;
+  for (i = 0; i < n; i++) { h ^= b[i]; h *= 1099511628211ULL; }
+  return h;
+}
+static void report_data(const char *call, const char *f, DIRFILE *D, size_t n, const void *buf, size_t esz)
+{
+  int e = gd_error(D);
+  printf("%s %s %d %zu sum=%llx\n", call, f, e, n, (e == 0 && n > 0 && n <= 4096) ? sum(buf, n * esz) : 0ULL);
+}
 static void report(const char *call, const char *f, DIRFILE *D, long long n)
 {
   int e = gd_error(D);
@@ -26,8 +39,19 @@ static void report(const char *call, const char *f, DIRFILE *D, long long n)
   if (e) gd_error_string(D, buf, sizeof buf);
 }
 
+#include <dirent.h>
+static int count_fds(void)
+{
+  int n = 0; DIR *d = opendir("/proc/self/fd"); struct dirent *e;
+  if (!d) return -1;
+  while ((e = readdir(d))) if (e->d_name[0] != '.') n++;
+  closedir(d);
+  return n;
+}
+
 int main(int argc, char **argv)
 {
+  int fds0 = count_fds();
   int nerr = 0, pedantic = argc > 2 && argv[2][0] == 'p';
   unsigned i, nf;
   const char **fl;
@@ -51,9 +75,9 @@ int main(int argc, char **argv)
     else report("entry", f, D, -1);
     report("fragment_index", f, D, gd_fragment_index(D, f));
     report("validate", f, D, gd_validate(D, f));
-    if (t == GD_CONST_ENTRY) { report("get_constant", f, D, gd_get_constant(D, f, GD_FLOAT64, dbuf)); continue; }
+    if (t == GD_CONST_ENTRY) { { int rr = gd_get_constant(D, f, GD_FLOAT64, dbuf); report_data("get_constant", f, D, rr == 0 ? 1 : 0, dbuf, 8); } continue; }
     if (t == GD_CARRAY_ENTRY) { size_t l = gd_array_len(D, f); report("array_len", f, D, l);
-      if (l <= 4096) report("get_carray", f, D, gd_get_carray(D, f, GD_FLOAT64, dbuf)); continue; }
+      if (l <= 4096) { int rr = gd_get_carray(D, f, GD_FLOAT64, dbuf); report_data("get_carray", f, D, rr == 0 ? l : 0, dbuf, 8); } continue; }
     if (t == GD_STRING_ENTRY) { char sb[64]; report("get_string", f, D, gd_get_string(D, f, sizeof sb, sb)); continue; }
     if (t == GD_SARRAY_ENTRY) { report("array_len", f, D, gd_array_len(D, f)); continue; }
     if (t == GD_NO_ENTRY) continue;
@@ -63,11 +87,11 @@ int main(int argc, char **argv)
       long long eof = gd_eof64(D, f); report("eof", f, D, eof);
       long long bof = gd_bof64(D, f); report("bof", f, D, bof);
       if (t == GD_SINDIR_ENTRY) { const char *sb[64]; report("getdata_s", f, D, gd_getdata64(D, f, 0, 0, 0, 8, GD_STRING, sb)); continue; }
-      report("getdata_d0", f, D, gd_getdata64(D, f, 0, 0, 0, 64, GD_FLOAT64, dbuf));
-      report("getdata_i3", f, D, gd_getdata64(D, f, 0, 3, 0, 17, GD_INT64, ibuf));
-      report("getdata_c", f, D, gd_getdata64(D, f, 1, 1, 1, 5, GD_COMPLEX128, dbuf));
+      report_data("getdata_d0", f, D, gd_getdata64(D, f, 0, 0, 0, 64, GD_FLOAT64, dbuf), dbuf, 8);
+      report_data("getdata_i3", f, D, gd_getdata64(D, f, 0, 3, 0, 17, GD_INT64, ibuf), ibuf, 8);
+      report_data("getdata_c", f, D, gd_getdata64(D, f, 1, 1, 1, 5, GD_COMPLEX128, dbuf), dbuf, 16);
       report("getdata_null", f, D, gd_getdata64(D, f, 0, 0, 2, 0, GD_NULL, NULL));
-      if (eof > 8) report("getdata_tail", f, D, gd_getdata64(D, f, 0, eof - 5, 0, 16, GD_FLOAT64, dbuf));
+      if (eof > 8) report_data("getdata_tail", f, D, gd_getdata64(D, f, 0, eof - 5, 0, 16, GD_FLOAT64, dbuf), dbuf, 8);
       report("getdata_far", f, D, gd_getdata64(D, f, 0, 1000000, 0, 9, GD_FLOAT64, dbuf));
       { /* representation suffixes */
         char code[300]; const char *sfx[4] = { ".i", ".r", ".m", ".a" }; int q;
@@ -78,11 +102,11 @@ int main(int argc, char **argv)
       }
       report("seek", f, D, gd_seek64(D, f, 0, 7, GD_SEEK_SET));
       report("tell", f, D, gd_tell64(D, f));
-      report("getdata_here", f, D, gd_getdata64(D, f, GD_HERE, 0, 0, 11, GD_FLOAT64, dbuf));
+      report_data("getdata_here", f, D, gd_getdata64(D, f, GD_HERE, 0, 0, 11, GD_FLOAT64, dbuf), dbuf, 8);
       report("seek_end", f, D, gd_seek64(D, f, 0, -2, GD_SEEK_END));
       report("getdata_here2", f, D, gd_getdata64(D, f, GD_HERE, 0, 0, 5, GD_FLOAT64, dbuf));
       report("seek0", f, D, gd_seek64(D, f, 0, 0, GD_SEEK_SET));
-      report("getdata_back", f, D, gd_getdata64(D, f, 0, 1, 0, 30, GD_UINT8, ibuf));
+      report_data("getdata_back", f, D, gd_getdata64(D, f, 0, 1, 0, 30, GD_UINT8, ibuf), ibuf, 1);
 #ifdef C05_FRAMENUM
       report("framenum", f, D, (long long)gd_framenum_subset64(D, f, 3.5, 0, 0));
 #endif
@@ -108,6 +132,11 @@ int main(int argc, char **argv)
       if (gd_discard(D) == 0) break;
     if (k <= 64) printf("DISCARD-RETRIES %d\n", k); else printf("DISCARD-NEVER\n");
   }
+  { int fds1 = count_fds(); if (fds0 >= 0 && fds1 > fds0) {
+      int k; printf("FD-LEAK %d:", fds1 - fds0);
+      for (k = 3; k < 64; k++) { char l[64], t[512]; ssize_t r; snprintf(l, sizeof l, "/proc/self/fd/%d", k);
+        r = readlink(l, t, sizeof t - 1); if (r > 0) { t[r] = 0; const char *b = strrchr(t, '/'); printf(" %s", b ? b + 1 : t); } }
+      printf("\n"); bad = 1; } }
   fflush(stdout);
   return bad;
 }
